@@ -574,3 +574,50 @@ func VerifC19Machines() {
 	}
 	rt.Reach("c19.machines")
 }
+
+// VerifC19History: a machine with a transaction history (reached through the
+// real API: one full update cycle) and its clone share no memory in the
+// history either (read through an overlay-only accessor).
+func VerifC19History() {
+	gen.Setup()
+	own, peer := simwallet.NewRandomAccount(cryptorand.Reader), simwallet.NewRandomAccount(cryptorand.Reader)
+	parts := []map[wallet.BackendID]wallet.Address{{channel.TestBackendID: own.Address()}, {channel.TestBackendID: peer.Address()}}
+	p, err := channel.NewParams(1+uint64(rt.NondetU8()), parts, channel.NoApp(), gen.BigK(1), true, false, channel.Aux{})
+	rt.Assume(err == nil)
+	cur := gen.State(1, 2, nil, 0)
+	cur.ID, cur.IsFinal = p.ID(), false
+	rt.Assume(cur.Version < 1<<62)
+	if rt.NondetBool() {
+		cur.Locked = []channel.SubAlloc{gen.SubAlloc(1, 2)}
+	}
+	sign := func(a *simwallet.Account, s *channel.State) wallet.Sig {
+		sig, err := channel.Sign(a, s, channel.TestBackendID)
+		rt.Assume(err == nil)
+		return sig
+	}
+	src := &gen.Source{ParamsV: p, PhaseV: channel.Acting, Current: channel.Transaction{State: cur, Sigs: []wallet.Sig{sign(own, cur), sign(peer, cur)}}}
+	m, err := channel.RestoreStateMachine(map[wallet.BackendID]wallet.Account{channel.TestBackendID: own}, src)
+	rt.Assume(err == nil)
+	to := cur.Clone()
+	to.Version++
+	rt.Assume(m.Update(to, 0) == nil)
+	_, err = m.Sig()
+	rt.Assume(err == nil)
+	rt.Assume(m.AddSig(1, sign(peer, to)) == nil)
+	rt.Assume(m.EnableUpdate() == nil)
+	y := m.Clone()
+	hx, hy := m.VerifPrevTXs(), y.VerifPrevTXs()
+	rt.Reach("c19.history")
+	rt.Assert("c19.history.kept", len(hx) == len(hy) && len(hx) >= 1)
+	k := len(hx) - 1
+	rt.Assert("c19.history.equal", snapOfTx(hx[k]).same(hy[k]))
+	if side() {
+		s := snapOfTx(hy[k])
+		mutateTx(hx[k])
+		rt.Assert("c19.history.separate", s.same(hy[k]))
+	} else {
+		s := snapOfTx(hx[k])
+		mutateTx(hy[k])
+		rt.Assert("c19.history.separate", s.same(hx[k]))
+	}
+}
